@@ -455,10 +455,10 @@ MANIFEST = dict(
         "a taint analysis showing that no -inf padded mass reaches a multiplication by a 0/1 mask (NaN). These are "
         "necessary conditions ('never NaN', 'state follows the surviving prefixes'); equality of the reported mass "
         "with the prefix-beam recursion is numerical and not decided."
-        " By value: ctc_prefix_search_advance driven from the empty prefix through 1-3 frames over 1-2 labels plus blank with beams wider than the reachable prefixes: distinct prefixes, exact alignment mass, order, empty slots behind (7 searches); pruned beams, language-model fusion values and lengths masks are not tabulated."),
+        " By value: ctc_prefix_search_advance driven from the empty prefix through 1-3 frames over 1-2 labels plus blank with beams wider than the reachable prefixes: distinct prefixes, exact alignment mass, order, empty slots behind (7 searches); pruned beams, language-model fusion values and lengths masks are not tabulated. The state handed to the fused model's first update_input is the caller's (backward slice of CTCPrefixSearch.forward interpreted with and without a state); the count of kept candidates is evaluated through its definitions."),
     level_note="Trusted: python ast, IEEE semantics of -inf*0, torch where/masked_fill. F12 (mass * mask) was found by "
                "G20 and repaired; F13 (-inf mass * probability under a saturated softmax) is a known finding.",
-    technique="static analysis: taint analysis for the -inf sentinel, index-space kind checking, reaching definitions, argument binding; truth table of the fill-up test over (padded length, frames processed, width); the advance step interpreted over exact rationals and driven frame by frame, compared with brute-force enumeration of all alignments on a finite grid (beams wide enough that nothing is pruned)",
+    technique="static analysis: taint analysis for the -inf sentinel, index-space kind checking, reaching definitions, argument binding; truth table of the fill-up test over (padded length, frames processed, width); the advance step interpreted over exact rationals and driven frame by frame, compared with brute-force enumeration of all alignments on a finite grid (beams wide enough that nothing is pruned); backward slice of the initial state interpreted over plain data",
     design_ref="DESIGN.md section 4 C05, section 3 G20/G14",
 )
 
